@@ -33,6 +33,10 @@ TRUSTED_BASE = [
 ]
 
 
+# which generated sections (translator/gen.py) each property's obligations read
+GEN_SECTIONS = {"C17": ["resolver"], "C18": ["mapping"], "C19": ["discovery"], "C20": ["w3c"]}
+
+
 def sh(cmd, **kw):
     return subprocess.run(cmd, shell=True, capture_output=True, text=True, **kw)
 
@@ -77,7 +81,14 @@ def build(force_extract=False):
         if os.path.exists(gen):
             r = sh(f"/venv/bin/python {gen} {REPO_SRC} {COQ}/gen/Gen.v")
             if r.returncode != 0:
-                gen_status = {"ok": False, "detail": (r.stdout + r.stderr)[-2000:]}
+                failed = None
+                try:
+                    failed = json.load(open(os.path.join(COQ, "gen", "Gen.v.status.json")))
+                except Exception:
+                    pass
+                # failed = {section: reason}: only the properties whose obligations read that section are affected;
+                # None = the translator itself crashed (affects every property with generated obligations)
+                gen_status = {"ok": False, "detail": (r.stdout + r.stderr)[-2000:], "failed_sections": failed}
         if not os.path.exists(os.path.join(COQ, "Makefile")) or os.path.getmtime(os.path.join(COQ, "_CoqProject")) > os.path.getmtime(os.path.join(COQ, "Makefile")):
             sh("coq_makefile -f _CoqProject -o Makefile", cwd=COQ)
         r = sh(f"timeout 3000 make -k -j{JOBS} 2>&1 | tail -60", cwd=COQ)
@@ -169,9 +180,21 @@ class Plugin:
     def exhaustive(self, tier: str):
         return []
 
+    # the converter methods whose answers this check looks at (None = all); see qprops.KEEP
+    keep = None
+
     def observe(self, case):
         """Run the real implementation: returns (case', obs)."""
         raise NotImplementedError
+
+    def observe_keep(self, case):
+        from . import qprops
+
+        qprops.KEEP = self.keep
+        try:
+            return self.observe(case)
+        finally:
+            qprops.KEEP = None
 
     def nontrivial(self, case, obs) -> bool:
         return True
@@ -195,7 +218,7 @@ def _observe_worker(args):
     out = []
     for c in cases:
         try:
-            c2, o = plug.observe(c)
+            c2, o = plug.observe_keep(c)
         except Exception as e:  # the harness itself failed on this case
             c2, o = c, ["harness-error", repr(e)]
         out.append((c2, o, f"{plug.entry} {plug.prop} {encode(c2)} {encode(o)}"))
@@ -258,7 +281,7 @@ def evaluate_one(plug: Plugin, live: driver.Live, case):
 
     logging.disable(logging.CRITICAL)
     try:
-        c2, o = plug.observe(case)
+        c2, o = plug.observe_keep(case)
     except Exception:
         return None
     if o and o[0] == "harness-error":
@@ -343,7 +366,15 @@ def run_check(plug: Plugin, tier: str, seed: int, level_note=""):
         chk = subprocess.Popen(f"timeout 1800 coqchk -o -silent -Q {COQ} Curies Curies.props.{pid}", shell=True,
                                stdout=subprocess.PIPE, stderr=subprocess.STDOUT, text=True)
     if not b["gen"]["ok"]:
-        obl["broken"].append("translator (fail-closed): " + b["gen"]["detail"])
+        failed = b["gen"].get("failed_sections")
+        mine = GEN_SECTIONS.get(pid, [])
+        if failed is None:
+            if mine:
+                obl["broken"].append("translator crashed: " + b["gen"]["detail"])
+        else:
+            for sec in mine:
+                if sec in failed:
+                    obl["broken"].append(f"translator (fail-closed), section {sec}: {failed[sec]}")
     rng = random.Random(seed_for(seed, pid, tier))
     cases = plug.corpus()
     ncorpus = len(cases)
